@@ -84,7 +84,7 @@ def main(tier, seed, replay=None):
     C.proof_stage(rep, PID)
     rep.cov["trusted_base"] += ["harness/circuits.py object->table mapping (applied to the circuit before pruning and to the implementation's pruned circuit)",
                                 "weights of merged sums compared within the float32 tolerance 2e-4; Python deepcopy semantics (copy=True) checked by snapshot comparison only",
-                                "normal form / idempotence: checked per case on model and implementation outputs (C09_nf_partial), not proved in general"]
+                                "normal form / idempotence / output validity are theorems about the model (C09_normal_form, C09_idempotent, C09_output_valid); on the implementation's output they are checked per case"]
     from deeprob.spn.algorithms.structure import prune
     from deeprob.spn.algorithms.inference import log_likelihood
     from deeprob.spn.structure.node import assign_ids
